@@ -6,9 +6,10 @@ PID = "C15"
 def check(tier, seed):
     q = tier == "quick"
     return G.generic_check(PID, "proof", tier, seed, coq=True,
-        rule='obligations: theorems of coq/properties/C15.v over EvalImpl.v (mirror symmetry for every settings record, dead material = 0, state independence); correspondence: Evaluate on fresh positions and their mirrors under the 4 UCI option combinations evaluated bit-exactly by the Coq model (c15-cases); monitor: positions of random games and random placements (fresh from FEN): Evaluate repeated, on a second evaluator, after evaluating other positions, after do/undo excursions; vs the colour-mirrored position; 0 when HasInsufficientMaterial; position unchanged; under the 4 combinations of Eval_Lazy / Eval_AdvPiece; a case = one position',
+        rule='obligations: theorems of coq/properties/C15.v over EvalImpl.v (mirror symmetry for every settings record, dead material = 0, state independence); correspondence: Evaluate on fresh positions and their mirrors under the 32 combinations of the five evaluation switches (Eval_Lazy, Eval_AdvPiece, UseAttacksInEval, Eval_Mobility, UseKingEval; 8 vectors per position, round-robin over a shuffled list) evaluated bit-exactly by the Coq model (c15-cases, EvalImpl.eval_case_full through the tabulated form CasesModels.eval_case), and every field of config.Settings.Eval as found at start-up compared with EvalImpl.default_cfg (marker D = []); monitor: positions of random games and random placements (fresh from FEN): Evaluate repeated, on a second evaluator, after evaluating other positions, after do/undo excursions; vs the colour-mirrored position; 0 when HasInsufficientMaterial; position unchanged; under the 32 combinations of the five evaluation switches; a case = one position',
         streams=[dict(name="eval_model_vs_engine", kind="coqcases", shards=lambda t: 4 if t == "quick" else 16,
-                      args=lambda t, s, sh, path: ["c15-cases", 150 if t == "quick" else 1200, s * 1000 + 300 + sh, path], coq_timeout=3000),
+                      args=lambda t, s, sh, path: ["c15-cases", 100 if t == "quick" else 600, s * 1000 + 300 + sh, path, 8], coq_timeout=3000,
+                      ok_markers=["M = []", "D = []"]),
                  dict(name='evaluation_monitor', kind="monitor", shards=lambda t: 4 if t == "quick" else 16,
                       args=lambda t, s, sh, path: ['c15-monitor', 2500 if t == "quick" else 60000, s * 1000 + sh])])
 
